@@ -143,6 +143,38 @@ func c05Message(x *runCtx, r *mrand.Rand, id kex.CipherSuiteID) {
 	c05Check(x, s, wire, plain, "honest", true)
 	isMac := s.Cipher.MacAlg != 0
 
+	// the model's sender (Lean encryptVal + typed marshal, IV taken from the given random bytes): what it builds must be
+	// opened by the real receiver to the same plaintext, and has the size of what the real sender built
+	{
+		rnd := make([]byte, 16)
+		for i := range rnd {
+			rnd[i] = byte(r.IntN(256))
+		}
+		sc := s
+		pl := append([]byte{}, plain...)
+		want := fmt.Sprintf("ok len=%d impl-opens self-ok", len(wire))
+		x.r.Case(fmt.Sprintf("model-sender cipher=%d plain=%x", s.ID, plain), true, fmt.Sprintf("%s:model-sender", s.ID))
+		x.c.add(pending{check: "C05.model-sender-opened-by-impl",
+			line:  fmt.Sprintf("tunnel.encrypt %d %s %s %s %s", s.ID, gen.Hex(s.SEK), gen.Hex(s.SVK), gen.Hex(rnd), gen.Hex(plain)),
+			impl:  want,
+			input: fmt.Sprintf("cipher=%d sek=%x svk=%s rnd=%x plain=%x", s.ID, s.SEK, gen.Hex(s.SVK), rnd, plain),
+			norm: func(out string) string {
+				f := strings.Fields(out)
+				if len(f) != 3 || f[0] != "ok" {
+					return out
+				}
+				w := gen.Unhex(f[1])
+				res := decryptImpl(sc, w)
+				opens := "impl-rejects"
+				if res == "ok "+gen.Hex(pl) {
+					opens = "impl-opens"
+				} else if strings.HasPrefix(res, "ok ") {
+					opens = "impl-opens-to-different-content"
+				}
+				return fmt.Sprintf("ok len=%d %s %s", len(w), opens, f[2])
+			}})
+	}
+
 	// decode the pieces for structural alterations
 	var e0 enc0T
 	var m0 mac0T
